@@ -287,6 +287,30 @@ func c12OneHistory(rep *childReport, seed int64, idx int) {
 				case it := <-held:
 					idle = 0
 					id := it.GetID()
+					if wr.Intn(7) == 0 {
+						// two parties act on the same seed at once (the quantifier allows any interleaving): a feedback racing a finish
+						var pair sync.WaitGroup
+						var gate atomic.Int32
+						pair.Add(2)
+						go func() {
+							defer pair.Done()
+							gate.Add(1)
+							for gate.Load() < 2 {
+							}
+							if h.do(cid+100, c12In{"feedback", id}, func() string { return c12Err(reactor.ReceiveFeedback(it)) }) == "ok" {
+								accepted.Add(1)
+							}
+						}()
+						go func() {
+							defer pair.Done()
+							gate.Add(1)
+							for gate.Load() < 2 {
+							}
+							h.do(cid+200, c12In{"finish", id}, func() string { return c12Err(reactor.MarkAsFinished(it)) })
+						}()
+						pair.Wait()
+						continue
+					}
 					if wr.Intn(10) < 4 {
 						if h.do(cid, c12In{"feedback", id}, func() string { return c12Err(reactor.ReceiveFeedback(it)) }) == "ok" {
 							accepted.Add(1)
